@@ -9,7 +9,7 @@ for d in /verif/seeded/*/; do
   (cd $W && git apply $d/patch.diff) || { echo "$n APPLYFAIL"; continue; }
   line="$n"
   for p in C04 C08 C09 C10 C12 C17 C18 C19; do
-    out=$(nice -n 19 /tmp/mut/vcheck-matrix -repo $W -p $p -tier quick -budget 10s -no-evidence 2>&1); code=$?
+    out=$(nice -n 19 /tmp/mut/vcheck-mx -repo $W -p $p -tier quick -budget 10s -maxviol 1 -shrink 8s -no-evidence 2>&1); code=$?
     line="$line $p=$code"
   done
   echo "$line"
